@@ -1,7 +1,7 @@
-(* Obligation C10/sharp_never_further.  Statement as printed by Coq from Inferno.C10.KernelProofs; proof by reference.
+(* Obligation C10/sharp_never_further.  Statement as printed by Coq from Inferno.C10.KernelSharp; proof by reference.
    This file contains nothing else, so the statement cannot be weakened quietly. *)
 From Coq Require Import List ZArith Bool Arith Reals Lra Lia Permutation.
-From Inferno Require Import Base.Num Base.NumR Gen.Bounding C10.Updater C10.KernelProofs C10.AccProofs C10.OrderProofs C10.WorldProofs C10.UpdateProofs C10.InterleaveProofs.
+From Inferno Require Import Base.Num Base.NumR Gen.Bounding C10.Updater C10.KernelAlgebra C10.KernelSharp.
 Import ListNotations.
 Open Scope R_scope.
 Theorem sharp_never_further : forall (x p n : R) (mx : option R) (mn : option (T RN)),
@@ -9,5 +9,5 @@ Theorem sharp_never_further : forall (x p n : R) (mx : option R) (mn : option (T
   0 <= n ->
   (forall m : R, mx = Some m -> m <= x -> x + bound_sharp RN x p n mx mn <= x) /\
   (forall m : T RN, mn = Some m -> x <= m -> x <= x + bound_sharp RN x p n mx mn).
-Proof. exact (@Inferno.C10.KernelProofs.sharp_never_further). Qed.
+Proof. exact (@Inferno.C10.KernelSharp.sharp_never_further). Qed.
 Print Assumptions sharp_never_further.
